@@ -121,7 +121,15 @@ def roundtrip(part, fmt, n, offset, kind, bonded, route, tmpdir):
             text = m.to_xyz_string() if fmt == "xyz" else m.to_sdf_string()
         else:
             d = tempfile.mkdtemp(dir=tmpdir)
-            path = os.path.join(d, "m." + fmt)
+            # file names: the format is chosen by the extension (any letter case); stems that are names of OTHER formats' files
+            # (coord, POSCAR, control ...) and dotted stems are ordinary names
+            stems = ["m", "coord", "POSCAR", "control", "a.b", "geom.opt", "CONTCAR"]
+            exts = [fmt, fmt, fmt, fmt.upper()]
+            path = os.path.join(d, "%s.%s" % (stems[(n + offset) % len(stems)], exts[(n + len(kind)) % len(exts)]))
+            if (n + offset) % 2:
+                import pathlib
+
+                path = pathlib.Path(path)
             m.save(path)
             text = open(path).read()
     except Exception as e:
